@@ -393,3 +393,22 @@ Theorem unsupported_function c fc :
 Proof.
   intros H. unfold serve, req0. cbn [r_fc]. rewrite (dispatch_unsupported fc H). reflexivity.
 Qed.
+
+(* the full statements, negated outright *)
+Theorem full_step_statement_refuted :
+  ~ (forall c w r, inv c -> decode_attrs w = Ok r -> other_ok w -> step_ok c r w).
+Proof.
+  intros H. destruct fc5_refuted as (c & w & r & Hi & Hd & Ho & Hn). apply Hn. apply H; assumption.
+Qed.
+
+Theorem full_classify_statement_refuted :
+  ~ (forall c w r c' o, inv c -> decode_attrs w = Ok r -> other_ok w ->
+       serve XC std c r = (c', o) ->
+       exec_outcome o = spec_outcome (abs c) w /\
+       (forall code, spec_outcome (abs c) w = Some code -> o = Exc (Z.lor (wfc w) 128) code /\ c' = c)).
+Proof.
+  intros H.
+  destruct (serve XC std (ctx1 1) (req_of (WWriteCoil 0 4660))) as [c' o] eqn:Es.
+  destruct (H (ctx1 1) (WWriteCoil 0 4660) _ c' o (ctx1_inv 1) eq_refl I Es) as [H1 _].
+  vm_compute in Es. injection Es as <- <-. vm_compute in H1. discriminate H1.
+Qed.
